@@ -21,6 +21,7 @@ META = {
                      "the geometric retention law follows from per-arrival Bernoulli(p) acceptance and a uniform slot"],
     "assumptions": [],
 }
+META["explanation"] += ' Also COPY, constructor wiring per object, DEP-C18 E1.'
 MIN_INSTANCES = {"FORMULA": 3, "DRAW": 1, "AGREE": 1}
 CLS = "GeometricReservoirStorage"
 
